@@ -2,6 +2,7 @@ package props
 
 import (
 	"fmt"
+	"math"
 	"sort"
 
 	"gopkg.in/typ.v4/slices"
@@ -317,7 +318,7 @@ func sortedStrict[T comparable](c *core.Ctx, tname string, gen func(*core.Rand) 
 				return
 			}
 		case 4: // out-of-range Get / RemoveAt must panic and change nothing
-			i := []int{-2, -1, len(model), len(model) + 1}[r.Intn(4)]
+			i := []int{-2, -1, len(model), len(model) + 1, math.MaxInt, math.MinInt, math.MaxInt - 1, math.MinInt + 1}[r.Intn(8)]
 			which := r.Bool()
 			hist = append(hist, fmt.Sprintf("out-of-range(%d,get=%v)", i, which))
 			var p bool
